@@ -45,7 +45,7 @@ pub enum Act {
     Swap(bool, N),
     /// slot, collateral increment, size delta usd
     Inc(usize, N, N),
-    /// slot, size kind (0 half, 1 all, 2 size+1 with cap, 3 size+1 without cap), collateral withdrawal
+    /// slot, size kind (0 half, 1 all, 2 size+1 with cap, 3 size+1 without cap, 4 zero: collateral withdrawal only), collateral withdrawal
     Dec(usize, u8, N),
     Liq(usize),
     Price(N, N),
@@ -164,6 +164,7 @@ impl Ph {
                 let size = match kind {
                     0 => p.size_usd / 2,
                     1 => p.size_usd,
+                    4 => 0,
                     _ => p.size_usd.saturating_add(1),
                 };
                 let flags = DecreasePositionFlags { is_insolvent_close_allowed: false, is_liquidation_order: false, is_cap_size_delta_usd_allowed: kind == 2 };
